@@ -1,7 +1,7 @@
 (* Random genome generation (C20): EVQECircuitLayer.random_layer literally, EVQEIndividual.random_individual,
    EVQEIndividual.add_random_layers (repaired / legacy), EVQEPopulation.random_population — each consuming a
    decision stream (Evqe/Stream.v) in program order.  Definitions only.
-   Parameter values are opaque integer tokens: token 0 is the value 0 the code writes for
+   Values of the parameters are opaque integer tokens: token 0 is the value 0 the code writes for
    randomize_parameter_values=False, DRandom t carries the token of 2*pi*random(). *)
 From QV Require Export Evqe.Genome Evqe.Stream.
 Open Scope Z_scope.
